@@ -44,7 +44,7 @@ def models(tier):
     # the library's load factor 0.75, compaction at every erase, two values
     mapcfg("map-3", (3, 4), 1, 1, 2, 4, 1 if q else 2, 5 if q else 6, False, need=("rehash", "reuse", "compact"))
     if not q:
-        mapcfg("map-4", (3, 4), 2, 3, 3, 5, 1, 7, False)
+        mapcfg("map-4", (3, 4), 2, 3, 3, 5, 1, 6, False)
     M.append(dict(name="vector", mod="Vector", c="vector", spec="GenSpec",
                   consts=dict(NVals=2, MaxLen=4, MaxHist=4 if q else 5, MaxSrc=2, MaxCap=5), p={},
                   props=["INVARIANT WellFormedInv", "PROPERTY Refinement", "PROPERTY DeviationsAreReal"],
@@ -77,32 +77,32 @@ def cfg_text(m, spec=None, props=True):
 
 
 # ---------------------------------------------------------------------------------------- reading TLC's output
-def read_states(path):
-    """yield {var: raw text} per state of a `tlc -dump` file"""
-    cur, name, buf = None, None, []
+_VAR = re.compile(r"^(?:/\\ )?(\w+) = ", re.M)
+
+
+def read_states(path, want_fin=True):
+    """yield {var: raw text} for the leaf states (fin = TRUE) of a `tlc -dump` file"""
+    def parse(block):
+        out, marks = {}, [(m.start(), m.end(), m.group(1)) for m in _VAR.finditer(block)]
+        for i, (st, en, name) in enumerate(marks):
+            end = marks[i + 1][0] if i + 1 < len(marks) else len(block)
+            out[name] = " ".join(x.strip() for x in block[en:end].splitlines())
+        return out
+    buf = []
     with open(path) as f:
         for line in f:
-            line = line.rstrip("\n")
             if line.startswith("State "):
-                if cur is not None:
-                    if name:
-                        cur[name] = " ".join(buf)
-                    yield cur
-                cur, name, buf = {}, None, []
-                continue
-            if cur is None:
-                continue
-            mm = re.match(r"(?:/\\ )?(\w+) = (.*)$", line)
-            if mm and not line.startswith(" "):
-                if name:
-                    cur[name] = " ".join(buf)
-                name, buf = mm.group(1), [mm.group(2)]
-            elif line.strip():
-                buf.append(line.strip())
-    if cur is not None:
-        if name:
-            cur[name] = " ".join(buf)
-        yield cur
+                if buf:
+                    block = "".join(buf)
+                    if not want_fin or "fin = TRUE" in block:
+                        yield parse(block)
+                buf = []
+            else:
+                buf.append(line)
+    if buf:
+        block = "".join(buf)
+        if not want_fin or "fin = TRUE" in block:
+            yield parse(block)
 
 
 def tags_of(st):
@@ -383,7 +383,7 @@ def run(res, tier, seed):
     if not quick:
         sims = [m for m in ms if m["name"] in ("map-2", "map-3", "map-4", "vector", "string", "list", "deque", "deque-3")]
         with ThreadPoolExecutor(max_workers=2) as ex:
-            souts = list(ex.map(lambda m: simulate(m, wd, 150, 40, seed, 4), sims))
+            souts = list(ex.map(lambda m: simulate(m, wd, 8 if m["c"] == "list" else 50, 40, seed, 4), sims))   # num is per worker
         for m, (r, hs) in zip(sims, souts):
             for h, tags in hs:
                 cases.append({"c": m["c"], "p": m["p"], "ops": h, "tags": tags, "model": m["name"] + "-sim"})
